@@ -36,6 +36,8 @@ def run(eng, rep) -> None:
     rep.rule("R11.3", "ResultAttemptError/MaybeAttemptError/UnwrapError from every reachable attempt()/unwrap() are handled or guarded")
     rep.rule("R11.4", "FcpError.msg tuple shape agrees between producers and Logger.error; add_source dominates parse under the cited key; error nodes carry .meta")
     rep.rule("R11.5", "no flow from UnexpectedEOF.line/column into MetaData")
+    rep.rule("R11.6", "library calls with a raising contract (frozen table) outside semantic actions are handled before a public entry")
+    rep.rule("R11.7", "rendering is a function of the registered sources: the renderer keeps no cache that add_source does not invalidate")
     rep.assume("lark contract (frozen): Earley+dynamic lexer Lark.parse raises only UnexpectedCharacters / UnexpectedEOF; Transformer.transform wraps every callback exception in VisitError; UnexpectedEOF.line == column == -1")
     rep.assume("termination of the Earley parser; OSError from reading the top-level file is out of the property's quantifier (inputs are texts)")
     for r in ROOTS:
@@ -125,10 +127,92 @@ def run(eng, rep) -> None:
                           "unguarded unwrap() can raise UnwrapError past the public entry point", path=paths[0] if paths else None)
     rep.floor("R11.3", "attempt() sites on the parse path", n_att, 4)
 
+    # ---- R11.6 / R11.7 -----------------------------------------------------------
+    r116(eng, rep, xf)
+    r117(eng, rep)
     # ---- R11.4 ---------------------------------------------------------------
     r114(eng, rep, xf, parse_sites)
     # ---- R11.5 ---------------------------------------------------------------
     r115(eng, rep, xf, UE, UC)
+
+
+LIB_RAISERS = {
+    # callee (resolved) : (predicate on the call, exception class, text)
+    "unicodedata.name": (lambda c: len(c.args) == 1, ValueError, "unicodedata.name(ch) raises ValueError for characters without a name (control characters) when no default is given"),
+    "unicodedata.lookup": (lambda c: True, KeyError, "unicodedata.lookup raises KeyError for unknown names"),
+    "builtins.next": (lambda c: len(c.args) == 1, StopIteration, "next(it) without a default raises StopIteration on an exhausted iterator"),
+    "builtins.max": (lambda c: len(c.args) == 1 and not isinstance(c.args[0], (ast.List, ast.Tuple)) and not any(k.arg == "default" for k in c.keywords), ValueError, "max() of an empty iterable raises ValueError"),
+    "builtins.min": (lambda c: len(c.args) == 1 and not isinstance(c.args[0], (ast.List, ast.Tuple)) and not any(k.arg == "default" for k in c.keywords), ValueError, "min() of an empty iterable raises ValueError"),
+    "builtins.chr": (lambda c: not isinstance(c.args[0], ast.Constant) if c.args else False, ValueError, "chr() raises ValueError outside range(0x110000)"),
+}
+METHOD_RAISERS = {
+    "index": (ValueError, "x.index(v) raises ValueError when v is absent"),
+    "remove": (ValueError, "list.remove(v) raises ValueError when v is absent"),
+}
+
+
+def r116(eng, rep, xf) -> None:
+    prog, cg = eng.prog, eng.cg
+    direct = cg.reachable(ROOTS)  # without the transformer registry edges: code whose exceptions lark does not wrap
+    n = 0
+    for q in sorted(direct):
+        f = prog.functions[q]
+        if f.module.name in ("fcp.maybe", "fcp.result") or q in xf.cb_class:
+            continue
+        ft = eng.T.fn(f)
+        nodes = list(walk_local(f.node))
+        for x in list(nodes):
+            if isinstance(x, ast.Lambda):
+                nodes += list(ast.walk(x.body))
+        for c in nodes:
+            if not isinstance(c, ast.Call):
+                continue
+            hit = None
+            r = prog.resolve_expr_symbol(f.module, f, c.func) if isinstance(c.func, (ast.Name, ast.Attribute)) else None
+            full = None
+            if r and r[0] == "ext":
+                full = r[1]
+            elif r and r[0] == "builtin":
+                full = "builtins." + r[1]
+            if full in LIB_RAISERS and LIB_RAISERS[full][0](c):
+                hit = (LIB_RAISERS[full][1], LIB_RAISERS[full][2])
+            elif isinstance(c.func, ast.Attribute) and c.func.attr in METHOD_RAISERS and r is None:
+                rt = ft.of(c.func.value)
+                if rt is not None and any(u[0] in ("prim", "list", "tuple") for u in members(rt)):
+                    hit = METHOD_RAISERS[c.func.attr]
+            if hit is None:
+                continue
+            n += 1
+            paths = xf.escapes(f, c, ("ext", hit[0]))
+            rep.check(not paths, "R11.6", f.file, f.qual, norm(c, 70), "handled before a public entry", "%s; here it escapes the parser's public entry point" % hit[1], path=paths[0] if paths else None)
+    rep.extra["library_raiser_sites"] = n
+    rep.ok("R11.6", "-", "-", "%d functions outside semantic actions scanned against the library-raiser table" % len(direct), "%d matching call sites" % n)
+
+
+def r117(eng, rep) -> None:
+    prog, cg = eng.prog, eng.cg
+    lg = prog.cls("fcp.error.Logger")
+    err = lg.methods.get("error")
+    add = lg.methods.get("add_source")
+    if err is None or add is None:
+        raise AnalysisError("anchor vanished: Logger.error / Logger.add_source")
+    from ..dataflow import stores_in
+    inval = set()
+    for kind, tgt, st in stores_in(add.node):
+        t = norm(tgt)
+        if t.startswith("self."):
+            inval.add(t.split(".")[1].split("[")[0])
+    reach = [prog.functions[q] for q in cg.reachable([err.qual]) if prog.functions[q].module.name == "fcp.error"]
+    for f in reach + [x for x in err.nested.values()]:
+        if f is add or f.name == "__init__":
+            continue
+        for kind, tgt, st in stores_in(f.node):
+            t = norm(tgt)
+            if t.startswith("self."):
+                attr = t.split(".")[1].split("[")[0]
+                rep.check(attr in inval, "R11.7", f.file, f.qual, norm(st, 70), "cache invalidated by add_source",
+                          "the renderer caches data derived from the sources in self.%s, which add_source never invalidates: after re-registering a source the diagnostic cites lines of the old text (or raises IndexError)" % attr)
+    rep.ok("R11.7", lg.file, lg.qual, "%d rendering functions scanned" % len(reach), "no stale derived state")
 
 
 def callback_raisers(eng, xf) -> List[str]:
